@@ -543,6 +543,12 @@ func (m *Model) Pull(s *MSub, max int, resp []RecvMsg, t0, t1 time.Time) *Violat
 					if x.LeaseHi.After(u.LeaseHi) {
 						u.LeaseHi = x.LeaseHi
 					}
+					if x.CreLo.Before(u.CreLo) {
+						u.CreLo = x.CreLo
+					}
+					if x.CreHi.After(u.CreHi) {
+						u.CreHi = x.CreHi
+					}
 					if x.Seen < u.Seen {
 						u.Seen = x.Seen
 					}
@@ -552,6 +558,7 @@ func (m *Model) Pull(s *MSub, max int, resp []RecvMsg, t0, t1 time.Time) *Violat
 				}
 				for _, x := range grp {
 					x.RetLo, x.RetHi, x.LeaseLo, x.LeaseHi = u.RetLo, u.RetHi, u.LeaseLo, u.LeaseHi
+					x.CreLo, x.CreHi = u.CreLo, u.CreHi
 					x.Seen, x.SeenUnc = u.Seen, hi-u.Seen
 				}
 			}
@@ -805,6 +812,12 @@ func (m *Model) Pull(s *MSub, max int, resp []RecvMsg, t0, t1 time.Time) *Violat
 			}
 			continue
 		}
+		if e.GuessBound || e.MaybeTaken {
+			// which row this expectation stands for was a guess: what blocks it (ordering),
+			// what revives it (seeks by creation time) is that of the other candidate as
+			// likely as its own. Safety is still checked (on the union), completeness not.
+			continue
+		}
 		mustDeliver = append(mustDeliver, e)
 	}
 	limitBound := len(resp)+len(mayDL) >= max || m.Concurrent
@@ -949,6 +962,11 @@ func (m *Model) deadLetter(e *ED, t0, t1 time.Time) {
 		}
 		if ex != nil && wasMaybe && ex.MaybeTaken {
 			continue // a delivery bound to a sibling copy by a guess may have been this one: stays optional
+		}
+		if ex != nil && wasMaybe && ex.BySeek {
+			// a seek went over the optional copy meanwhile: if it existed then, the seek
+			// settled or re-opened it; if it is created only now, it is outstanding. Stays optional.
+			continue
 		}
 		if ex != nil && wasMaybe {
 			// resolved: either forwarded earlier or now
